@@ -159,6 +159,11 @@ ui999topstr(char *restrict b, size_t z, uint32_t d, size_t width, char pad)
 		i = 0U;
 		b[i] = ui2c(d100, pad);
 		i += (d100 > 0U || width > 2U && pad) && z > 2U;
+		if (d100 > 0U) {
+			/* zeros behind a digit are digits, not padding */
+			pad = '0';
+			width = 3U;
+		}
 		d100 = drem / 10U, drem = drem % 10U;
 		b[i] = ui2c(d100, pad);
 		i += (d100 > 0U || width > 1U && pad) && z > 1U;
@@ -179,9 +184,18 @@ ui9999topstr(char *restrict b, size_t z, uint32_t d, size_t width, char pad)
 		i = 0U;
 		b[i] = ui2c(d1000, pad);
 		i += (d1000 > 0U || width > 3U && pad) && z > 3U;
+		if (d1000 > 0U) {
+			/* zeros behind a digit are digits, not padding */
+			pad = '0';
+			width = 4U;
+		}
 		d1000 = drem / 100U, drem = drem % 100U;
 		b[i] = ui2c(d1000, pad);
 		i += (d1000 > 0U || width > 2U && pad) && z > 2U;
+		if (d1000 > 0U) {
+			pad = '0';
+			width = 4U;
+		}
 		d1000 = drem / 10U, drem = drem % 10U;
 		b[i] = ui2c(d1000, pad);
 		i += (d1000 > 0U || width > 1U && pad) && z > 1U;
